@@ -42,12 +42,15 @@ def run (j : Json) : Except String Json := do
       let f ← fldQ j "factor"
       let fuel ← fldN j "fuel"
       -- `GeometricInterrupts.initialize` IS `next`: an earlier run on the same object simply continues
-      let last : Option (Rat × Nat) ← (match fldOpt j "warmup" with
-        | some w => do
+      -- (with "warm_last" = [value, k] the state after the earlier run is taken from the real run: the float
+      -- logarithm of the code may round an exact lattice hit of the warm-up either way)
+      let last : Option (Rat × Nat) ← (match fldOpt j "warm_last", fldOpt j "warmup" with
+        | some (Json.arr #[v, k]), _ => do pure (some (← getQ v, ← getN k))
+        | _, some w => do
           let tw ← fldQ w "t0"
           let wq ← fldQs w "queries"
           pure ((runGeom scale f fuel none (tw :: wq)).getLast?.join)
-        | none => pure none)
+        | _, none => pure none)
       let r := runGeom scale f fuel last (t0 :: qs)
       pure (Json.arr (r.map (fun o => match o with
         | none => Json.str "fuel"
